@@ -89,10 +89,10 @@ def _chars(kind, alpha):
 
 def _mkstr(kind, alpha, n, variant=0):
     a = _chars(kind, alpha)
-    picks = [a[0], a[-1], a[len(a) // 2]]
+    picks = list(a) if len(a) <= 6 else [a[0], a[-1], a[len(a) // 2]]     # short alphabets (incl. the 1/2/3/4-octet UTF-8 ladder) in full
     if variant == 1:
         return (a[-1] * n)
-    return ''.join(picks[i % 3] for i in range(n))
+    return ''.join(picks[i % len(picks)] for i in range(n))
 
 
 def leaf_values(mod, t, big=False):
